@@ -30,6 +30,18 @@ def run(ev, vd):
     ev.add_tlc("MCForEachAbs", r)
     if not r.ok:
         raise ToolError("ForEachAbs sanity model violates %s\n%s" % (r.violation, brief(r.out)))
+    # implementation-shaped models of the two worklist families most executions run on (with mutants): chunked per-socket
+    # worklists (publish / steal / fall back to the unpublished chunk) and OBIM (lazily shared priority bags, back-scan prevention)
+    for mod, cfgs, mutant in (("MCChunkWL", ["MCChunkWL.cfg"], "MCChunkWL_mutant.cfg"),
+                              ("Obim", ["Obim.cfg"] + (["Obim_thorough.cfg"] if tier() == "thorough" else []), "Obim_mutant.cfg")):
+        for cfg in cfgs:
+            r = tlc(os.path.join(fe.SP, mod + ".tla"), cfg=os.path.join(fe.SP, cfg), workers=NCPU, timeout=3000, heap="16g")
+            ev.add_tlc(cfg, r)
+            if not r.ok:
+                raise ToolError("%s (%s) violates %s\n%s" % (mod, cfg, r.violation, brief(r.out)))
+        r = tlc(os.path.join(fe.SP, mod + ".tla"), cfg=os.path.join(fe.SP, mutant), workers=NCPU, timeout=900)
+        if r.ok:
+            raise ToolError("%s does not distinguish its mutant (vacuous model?)" % mod)
     tr, res, hangs = fe.campaign(ev, ["foreach_a", "foreach_b", "foreach_c"], fe.STD_JOBS, "c01")
     execs = fe.summarize(ev, tr)
     rej = fe.report(ev, vd, tr, res, hangs, "C01")
